@@ -248,6 +248,18 @@ def _step(s: Store, op: dict, exc_log: list):
         if name == "sum":
             s.set(op["out"], sum(s.get(i) for i in op["hs"]))
             return "ok"
+        if name == "normalize_bins":
+            from physt.histogram_collection import HistogramCollection
+            members = [s.get(i) for i in op["hs"]]
+            col = HistogramCollection(*members)          # refuses members with different bins
+            src_before = [snap1(m) for m in members]
+            with np.errstate(all="ignore"):
+                res = col.normalize_bins(inplace=False)
+            if [snap1(m) for m in members] != src_before:
+                raise AssertionError("normalize_bins(inplace=False) modified its members")
+            for o, m in zip(op["outs"], res.histograms):
+                s.set(o, m)
+            return "ok"
         if name == "invalid":
             h = s.get(op["h"])
             what = op["what"]
